@@ -63,6 +63,8 @@ def plan(tier, seed):
     shards.append(("long",))
     for ui in range(NUBI):
         shards.append(("getind", ui, 4 if tier == "quick" else 5))
+    for ui in range(NUBI):
+        shards.append(("reassign", ui, 3 if tier == "quick" else 4))
     shards.append(("exact",))
     shards.append(("callers",))
     shards.append(("rgrefine",))
@@ -329,6 +331,69 @@ def _run_getind(desc):
     return sh
 
 
+def _run_reassign(desc):
+    """assign / the matrix changes / assign again with the SAME label on ONE labels array (an iterative fit): for every sequence
+    (length <= 3, thorough 4) over 5 trial matrices, after every call the peaks carrying the label are exactly the peaks within the
+    tolerance of the matrix just given, the returned count is their number, peaks of other labels outside the tolerance keep theirs,
+    and refine_assigned over that label is the least-squares fit over exactly those peaks"""
+    _, ui, depth = desc
+    from ImageD11 import cImageD11 as cI
+    sh = Shard()
+    ubi, gen = ubis()[ui]
+    P = peaks_for(gen)
+    gv = np.ascontiguousarray(np.concatenate([P, -P[:12], 1.37 * P[5:15]]))
+    n = len(gv)
+    trials = [np.ascontiguousarray(t) for t in (
+        ubi, gen, np.dot(ubi, O.rotation_from_axis_angle((1, 1, 1), 60.0).T), np.dot(ubi, O.rotation_from_axis_angle((1, 0, 0), 0.1).T),
+        1.015 * np.dot(gen, O.rotation_from_axis_angle((0, 0, 1), 0.1).T))]
+    tol = 0.05
+    want = []
+    for t in trials:
+        o = oracle(t, gv, tol)
+        if "sel" not in o:
+            sh.borderline += 1
+            return sh
+        want.append(o)
+    LBL = 3
+    for L in range(1, depth + 1):
+        for seq in itertools.product(range(len(trials)), repeat=L):
+            labels = np.array([7 if q % 5 == 0 else -1 for q in range(n)], np.int32)     # some peaks belong to another grain already
+            case = {"kind": "reassign", "ubi": ui, "sequence": list(seq)}
+            bad = None
+            for step, k in enumerate(seq):
+                before = labels.copy()
+                drlv2 = np.ones(n, float)               # fresh errors for the new matrix, the labels are kept
+                got_n = cI.score_and_assign(trials[k], gv, tol, drlv2, labels, LBL)
+                sel = want[k]["sel"]
+                expect = np.where(sel, LBL, np.where(before == LBL, -1, before))
+                if got_n != want[k]["n"]:
+                    bad = ("score_and_assign:returned-count", {"got": int(got_n), "expected": want[k]["n"], "step": step})
+                elif not np.array_equal(labels, expect):
+                    stale = int(((labels == LBL) & ~sel).sum())
+                    bad = ("score_and_assign:labels-after-reassignment", {"peaks_carrying_label_but_outside_tolerance": stale,
+                                                                        "wrong_labels": int((labels != expect).sum()), "step": step})
+                if bad:
+                    break
+            if bad is None and want[seq[-1]]["status"] in ("ok", "singular"):
+                o = want[seq[-1]]
+                u = trials[seq[-1]].copy()
+                npk, mean = cI.refine_assigned(u, gv, labels, LBL)
+                wantm = o["ubi"] if o["status"] == "ok" else trials[seq[-1]]
+                if npk != o["n"] or abs(mean - o["mean"]) > 1e-12 + 1e-9 * abs(o["mean"]):
+                    bad = ("refine_assigned-after-reassignment:count-or-error", {"n": int(npk), "mean": float(mean), "expected": [o["n"], o["mean"]]})
+                elif not np.allclose(u, wantm, rtol=1e-7, atol=o.get("atol", 0.0)):
+                    bad = ("refine_assigned-after-reassignment:matrix", {"got": u, "expected": wantm})
+            if bad:
+                sh.violation(bad[0], case, bad[1])
+                return sh
+            sh.evaluations += 1
+            if L > 1 and len(set(seq)) > 1:
+                sh.nontrivial += 1
+    sh.outcomes.add(("reassign", tuple(o["n"] for o in want)))
+    sh.sample(case, limit=1)
+    return sh
+
+
 def _run_callers(desc):
     """the scoring / refinement kernels are declared threadsafe (the GIL is released): pairs of different calls from the C20 call tables as
     TWO CONCURRENT CALLERS on the schedule-exploring runtime, every interleaving at shared words within 2 preemptions; each call must
@@ -452,7 +517,7 @@ def _run_rgrefine(desc):
 
 
 def run_shard(desc):
-    return {"callers": _run_callers, "exact": _run_exact, "rgrefine": _run_rgrefine, "multi": _run_multi, "assigned": _run_assigned, "long": _run_long, "getind": _run_getind}[desc[0]](desc)
+    return {"reassign": _run_reassign, "callers": _run_callers, "exact": _run_exact, "rgrefine": _run_rgrefine, "multi": _run_multi, "assigned": _run_assigned, "long": _run_long, "getind": _run_getind}[desc[0]](desc)
 
 
 def replay(case):
@@ -472,6 +537,8 @@ def replay(case):
         sh.violations = [v for v in _run_exact(("exact",)).violations if v["case"]["tol"] == case["tol"] and v["case"]["scale"] == case["scale"]]
     elif case["kind"] == "rgrefine":
         sh.violations = [v for v in _run_rgrefine(("rgrefine",)).violations if v["case"]["ubi"] == case["ubi"]]
+    elif case["kind"] == "reassign":
+        sh.violations = _run_reassign(("reassign", case["ubi"], len(case["sequence"]))).violations
     elif case["kind"] == "getind":
         sh.violations = _run_getind(("getind", case["ubi"], len(case["sequence"]))).violations
     else:
